@@ -55,3 +55,37 @@ def run_fields(dassh, case, d, every=None, planes=None, kw=None,
 
 def qvec(x, scale):
     return [q(float(v), scale) for v in np.ravel(x)]
+
+
+def run_fields_isolated(case, d, every=None):
+    """run_fields in a fresh interpreter (no state of any earlier run in this
+    process - module-level or class-level - can leak into it). Returns
+    (z, snapshots)."""
+    import json
+    import os
+    import pickle
+    import subprocess
+    import sys
+    from . import common
+    os.makedirs(d, exist_ok=True)
+    cj = os.path.join(d, 'case.json')
+    out = os.path.join(d, 'fields.pkl')
+    with open(cj, 'w') as f:
+        json.dump(case, f)
+    code = (
+        "import sys, json, pickle\n"
+        "sys.path.insert(0, %r)\n"
+        "import numpy as np\n"
+        "from harness import common, fields\n"
+        "dassh = common.import_dassh()\n"
+        "case = json.load(open(%r))\n"
+        "r, s = fields.run_fields(dassh, case, %r, every=%r)\n"
+        "pickle.dump((np.asarray(r.z), s), open(%r, 'wb'))\n"
+    ) % (str(common.VERIF), cj, d, every, out)
+    env = dict(os.environ, DASSH_REPO=str(common.REPO))
+    p = subprocess.run([sys.executable, '-c', code], text=True,
+                       capture_output=True, timeout=900, env=env)
+    if p.returncode != 0 or not os.path.exists(out):
+        raise RuntimeError('isolated run failed: ' + p.stderr[-400:])
+    with open(out, 'rb') as f:
+        return pickle.load(f)
